@@ -27,8 +27,28 @@
 #include "rkcommon/tasking/schedule.h"
 #include "rkcommon/tasking/tasking_system_init.h"
 
+#include "rkcommon/verif_hooks.h"
+
 using vj::Json;
 using namespace rkcommon::tasking;
+
+// schedule perturbation through the guarded hook points of the Internal backend's scheduler
+// (--perturb SEED): seeded random delays between "execute", "decrement running count", "pipe write",
+// "wait loop" ... so that windows a few instructions wide are held open.  The verdict stays TLC's.
+static std::atomic<unsigned> g_prng{0};
+static std::atomic<long> g_pointCalls{0};
+static void perturbPoint(const char *, const void *)
+{
+  g_pointCalls++;
+  unsigned x = g_prng.load();
+  x ^= x << 13; x ^= x >> 17; x ^= x << 5;
+  g_prng.store(x);
+  unsigned k = x % 16;
+  if (k < 8) return;
+  if (k < 12) { std::this_thread::yield(); return; }
+  if (k < 15) { for (volatile unsigned i = 0; i < x % 3000; ++i) {} return; }
+  std::this_thread::sleep_for(std::chrono::microseconds(30 + x % 150));
+}
 
 struct Ev
 {
@@ -275,8 +295,12 @@ int main(int argc, char **argv)
     if (a == "--in" && i + 1 < argc) in = argv[++i];
     else if (a == "--out" && i + 1 < argc) out = argv[++i];
     else if (a == "--threads" && i + 1 < argc) threads = atoi(argv[++i]);
+    else if (a == "--perturb" && i + 1 < argc) { g_prng = (unsigned)atol(argv[++i]) * 2654435761u + 12345u; }
   }
   if (in.empty() || out.empty()) { fprintf(stderr, "usage: --in scenarios.ndjson --out events.ndjson --threads T\n"); return 2; }
+#ifdef RKCOMMON_VERIF
+  if (g_prng.load()) rkcommon::verif::setPointFcn(perturbPoint);
+#endif
   initTaskingSystem(threads);
   std::ifstream f(in);
   g_out.open(out, std::ios::app);
@@ -336,6 +360,7 @@ int main(int argc, char **argv)
     }
     writeResult(j["id"], collect(leaf), nullptr);
   }
+  if (getenv("VERIF_PF_DEBUG")) fprintf(stderr, "hook point calls: %ld\n", g_pointCalls.load());
   g_out.flush();
   _exit(0);   // no static destructors: the tasking system may still hold queued helper tasks
 }
